@@ -86,6 +86,48 @@ def labelModel (m : Mode) (shape : List Nat) (data : List Int) (bshape : List Na
     List Int × Int :=
   renumber (-1) (parents m shape data (offsets bshape bc)).toList
 
+/-! ### address-level model (round 4): flat deltas into the int32 buffer
+
+`label()` walks the C-contiguous int32 buffer `labeled` with `iter` (flat index `i`) and reads its neighbours as
+`*(iter + offsets_[j])`: the offset table of `filter_iterator` holds, for the border class of the current position and the
+`j`-th footprint entry `k`, either the border flag (`ExtendConstant`: the neighbour `p + k` leaves the image, `retrieve`
+returns false) or the FLAT DELTA `Σ_d k_d · stride_d` with the element strides `stride_d = Π_{e>d} shape_e` of the buffer.
+The coordinate model above computes the neighbour's coordinates and ravels them; this one adds the delta to the address. -/
+
+/-- flat delta of the offset `k` in a C-contiguous buffer of shape `shape` (element strides) -/
+def flatDelta : List Nat → List Int → Int
+  | _ :: ds, k :: ks => k * (shapeSize ds : Int) + flatDelta ds ks
+  | _, _ => 0
+
+/-- `filter.retrieve(iter, j, arr_val)` at flat index `i` for the footprint entry `k`: `none` = the border flag
+(`retrieve` returns false), `some a` = the ADDRESS (element index into the buffer) that is read -/
+def retrieveAddr (shape : List Nat) (i : Nat) (k : List Int) : Option Nat :=
+  if inside shape (addPos (unravelI shape i) k) then some ((i : Int) + flatDelta shape k).toNat else none
+
+/-- one pixel of the scan loop on addresses: `if (filter.retrieve(iter, j, arr_val) && arr_val != -1) join(data, i, arr_val)` -/
+def scanPixelAddr (shape : List Nat) (offs : List (List Int)) (fuel : Nat) (par : Array Int) (i : Nat) : Array Int :=
+  if par.getD i (-1) = -1 then par else
+  offs.foldl (fun par k =>
+      match retrieveAddr shape i k with
+      | none => par
+      | some a =>
+        let v := par.getD a (-1)
+        if v = -1 then par else join fuel par i v.toNat) par
+
+def parentsAddr (shape : List Nat) (data : List Int) (offs : List (List Int)) : Array Int :=
+  let n := data.length
+  let fuel := n + 1
+  let par := (List.range n).foldl (scanPixelAddr shape offs fuel) (initParents data)
+  (List.range n).foldl (fun par i => if par.getD i (-1) = -1 then par else compress fuel par i) par
+
+/-- `label` on addresses: labels (C order) and the returned count -/
+def labelAddr (shape : List Nat) (data : List Int) (bshape : List Nat) (bc : Array Int) : List Int × Int :=
+  renumber (-1) (parentsAddr shape data (offsets bshape bc)).toList
+
+/-- every address the scan reads: for the bounds statement (`C03_addr_reads_in_bounds`) and the driver -/
+def addrReads (shape : List Nat) (n : Nat) (offs : List (List Int)) : List Nat :=
+  (List.range n).flatMap fun i => offs.filterMap (retrieveAddr shape i)
+
 /-! ### specification, computed independently of union–find -/
 
 /-- symmetric inside-image foreground neighbours of flat index `i` -/
@@ -140,7 +182,10 @@ def handle (a : Args) : String :=
     let m := if a.str "mode" == "nearest" then Mode.nearest else Mode.constant
     let md := labelModel m shape data bshape bc
     let sp := specLabels shape data bshape bc
-    s!"spec={showInts sp.1} nspec={sp.2} model={showInts md.1} nmodel={md.2}"
+    let ad := labelAddr shape data bshape bc
+    let reads := addrReads shape data.length (offsets bshape bc)
+    let oob := (reads.filter fun a => decide (data.length ≤ a)).length
+    s!"spec={showInts sp.1} nspec={sp.2} model={showInts md.1} nmodel={md.2} addr={showInts ad.1} naddr={ad.2} oob={oob}"
   | k => s!"error=unknown-kind-{k}"
 
 end Mahotas.C03
